@@ -551,6 +551,29 @@ func mergeTier(q, t TierSpec) TierSpec {
 	return r
 }
 
+// tierParameters reports the harness parameters this run actually used.
+func tierParameters(spec *Spec, tier string) map[string]interface{} {
+	ts := spec.Quick
+	if tier == "thorough" {
+		ts = mergeTier(spec.Quick, spec.Thorough)
+	}
+	entries := ts.Entries
+	if len(entries) == 0 {
+		entries = spec.Entries
+	}
+	out := map[string]interface{}{"params": ts.Params, "entries": entries}
+	if ts.Unwind != 0 {
+		out["unwind"] = ts.Unwind
+	}
+	if len(ts.EntryParams) != 0 {
+		out["entry_params"] = ts.EntryParams
+	}
+	if len(spec.EntryParams) != 0 {
+		out["entry_params_all_tiers"] = spec.EntryParams
+	}
+	return out
+}
+
 func firstLine(s string) string {
 	if i := strings.IndexByte(s, '\n'); i >= 0 {
 		return s[:i]
@@ -823,6 +846,7 @@ func writeEvidence(spec *Spec, tier string, seed int, start time.Time, reports [
 		"discharged":          dis,
 		"functions_encoded":   fes,
 		"bounds":              spec.Bounds,
+		"tier_parameters":     tierParameters(spec, tier),
 		"outside_claim":       spec.Outside,
 		"queries":             q,
 		"solver_time_s":       st,
